@@ -1,5 +1,186 @@
-"""In-memory file-system model (emfile, mrcfile, open, isfile) -- see DESIGN 3.1."""
+"""In-memory file-system model for symbolically loaded modules (DESIGN 3.1): emfile, mrcfile, os.path.isfile.
+
+A written file is a Record: format, on-disk dtype, header dims (nx, ny, nz) and the payload array in
+on-disk (C) order.  The stubs follow the documented behaviour of emfile 0.3 / mrcfile 1.5:
+  emfile.write : header xdim,ydim,zdim = shape[2],shape[1],shape[0]; dtype code from the array dtype;
+                 payload = C-order bytes; refuses to overwrite unless overwrite=True
+  mrcfile.write: nx,ny,nz = shape[::-1]; mode from dtype (int8->0, int16->1, float32->2, uint16->6);
+                 float64 is rejected (ValueError); refuses to overwrite unless overwrite=True
+"""
+import os as _os, types
+import numpy as _np
+from . import npx
+from .core import Unsupported
+
+EM_CODES = {"int8": 1, "int16": 2, "int32": 4, "float32": 5, "complex64": 8, "float64": 9}
+MRC_MODES = {"int8": 0, "int16": 1, "float32": 2, "uint16": 6, "float16": 12, "complex64": 4}
+
+
+class TaggedArray(_np.ndarray):
+    """object ndarray that remembers the numeric dtype it stands for (after a symbolic astype)."""
+    sx_dtype = None
+
+    def __array_finalize__(self, obj):
+        if obj is not None:
+            self.sx_dtype = getattr(obj, "sx_dtype", None)
+
+
+def tag(arr, name):
+    t = _np.asarray(arr).view(TaggedArray)
+    t.sx_dtype = name
+    return t
+
+
+def dtype_name(a):
+    n = getattr(a, "sx_dtype", None)
+    if n is not None:
+        return n
+    if type(a).__name__ == "LArray":
+        return a.dtype_tag
+    dt = _np.asarray(a).dtype
+    if dt == object:
+        return "float64"      # untagged symbolic reals stand for Python/numpy float64
+    return dt.name
+
+
+class Record:
+    def __init__(self, fmt, dtype, dims, data):
+        self.fmt, self.dtype, self.dims, self.data = fmt, dtype, dims, data
+
+
+class FS:
+    def __init__(self):
+        self.files = {}
+
+    def reset(self):
+        self.files.clear()
+
+
+FSYS = FS()
+
+
+def _shape(a):
+    return tuple(a.shape)
+
+
+class EmfileStub(types.ModuleType):
+    def __init__(self):
+        super().__init__("emfile")
+
+    def write(self, path, data, header_params={}, overwrite=False):
+        path = str(path)
+        if (path in FSYS.files or _os.path.exists(path)) and not overwrite:
+            raise ValueError("file %s exists" % path)
+        name = dtype_name(data)
+        if name not in EM_CODES:
+            raise KeyError(name)
+        shp = _shape(data)
+        if len(shp) != 3:
+            raise IndexError("tuple index out of range")
+        FSYS.files[path] = Record("em", name, (shp[2], shp[1], shp[0]), data)
+
+    def read(self, path, header_only=False, mmap=False):
+        path = str(path)
+        if path not in FSYS.files:
+            import emfile
+            return emfile.read(path, header_only=header_only, mmap=mmap)
+        r = FSYS.files[path]
+        if r.fmt != "em":
+            raise Unsupported("reading a non-EM record as EM")
+        header = {"dtype": EM_CODES[r.dtype], "xdim": r.dims[0], "ydim": r.dims[1], "zdim": r.dims[2], "machine": 6}
+        return header, (None if header_only else r.data)
+
+
+class _MrcHandle:
+    def __init__(self, rec, path):
+        self.rec = rec
+        self.data = rec.data
+        self.path = path
+        self.header = types.SimpleNamespace(nx=rec.dims[0], ny=rec.dims[1], nz=rec.dims[2], mode=MRC_MODES[rec.dtype])
+        self.voxel_size = types.SimpleNamespace(x=1.0, y=1.0, z=1.0)
+
+    def __enter__(self):
+        return self
+
+    def __exit__(self, *a):
+        return False
+
+    def close(self):
+        pass
+
+
+class MrcfileStub(types.ModuleType):
+    def __init__(self):
+        super().__init__("mrcfile")
+
+    def __getattr__(self, name):
+        import mrcfile
+        return getattr(mrcfile, name)
+
+    def write(self, name, data=None, overwrite=False, voxel_size=None):
+        path = str(name)
+        if (path in FSYS.files or _os.path.exists(path)) and not overwrite:
+            raise ValueError("File '%s' already exists; set overwrite=True to overwrite it" % path)
+        dn = dtype_name(data)
+        if dn not in MRC_MODES:
+            raise ValueError("dtype '%s' cannot be converted to an MRC file mode" % dn)
+        shp = _shape(data)
+        if len(shp) not in (2, 3, 4):
+            raise ValueError("Array should have 2, 3 or 4 dimensions")
+        dims = tuple(reversed(shp)) if len(shp) == 3 else (shp[1], shp[0], 1)
+        FSYS.files[path] = Record("mrc", dn, dims, data)
+
+    def open(self, name, mode="r", permissive=False, header_only=False):
+        path = str(name)
+        if path not in FSYS.files:
+            import mrcfile
+            return mrcfile.open(path, mode=mode, permissive=permissive, header_only=header_only)
+        r = FSYS.files[path]
+        if r.fmt != "mrc":
+            raise Unsupported("reading a non-MRC record as MRC")
+        return _MrcHandle(r, path)
+
+    def read(self, name):
+        return self.open(name).data
+
+
+class _PathProxy:
+    def __getattr__(self, name):
+        return getattr(_os.path, name)
+
+    @staticmethod
+    def isfile(p):
+        return str(p) in FSYS.files or _os.path.isfile(p)
+
+    @staticmethod
+    def exists(p):
+        return str(p) in FSYS.files or _os.path.exists(p)
+
+
+class OsProxy(types.ModuleType):
+    def __init__(self):
+        super().__init__("os")
+        self.path = _PathProxy()
+
+    def __getattr__(self, name):
+        return getattr(_os, name)
+
+
+EMFILE = EmfileStub()
+MRCFILE = MrcfileStub()
+OS = OsProxy()
 
 
 def substitute(short, g):
-    return []
+    import emfile, mrcfile, os
+    subs = []
+    for name, val in list(g.items()):
+        if val is emfile:
+            g[name] = EMFILE; subs.append(name)
+        elif val is mrcfile:
+            g[name] = MRCFILE; subs.append(name)
+        elif val is os:
+            g[name] = OS; subs.append(name)
+        elif val is os.path:
+            g[name] = OS.path; subs.append(name)
+    return subs
